@@ -111,6 +111,41 @@ func isRangePred(t *Term, ver int) bool {
 
 func cursorFactsOf(g *GC, nstores int) cursorFacts {
 	var f cursorFacts
+	// the new index as a linear form over the old one, when the path's (last) index store says so: guards may then be
+	// written over the old index (`old+1 < size` computed in a local before the field is written)
+	N := linAtom("N")
+	if nstores > 0 {
+		var last *Term
+		for _, ef := range g.Effects {
+			if storeToField(ef, "index") && ef.Args[0].Args[0].String() == "p:0" {
+				last = ef.Args[1]
+			}
+		}
+		if last != nil {
+			okv := true
+			var evO func(t *Term) lin
+			evO = func(t *Term) lin {
+				if k, ok := t.constInt(); ok {
+					return linConst(int(k))
+				}
+				switch {
+				case isIndexLoad(t, 0):
+					return linAtom("O")
+				case (t.Op == "+" || t.Op == "-") && len(t.Args) == 2:
+					sign := 1
+					if t.Op == "-" {
+						sign = -1
+					}
+					return evO(t.Args[0]).add(evO(t.Args[1]), sign)
+				}
+				okv = false
+				return linConst(0)
+			}
+			if v := evO(last); okv && v.c["O"] == 1 {
+				N = v
+			}
+		}
+	}
 	for _, a := range g.Guards {
 		if len(a.Args) == 2 {
 			x, y := a.Args[0], a.Args[1]
@@ -169,7 +204,9 @@ func cursorFactsOf(g *GC, nstores int) cursorFacts {
 				case isSize(t):
 					return linAtom("S")
 				case isIndexLoad(t, nstores):
-					return linAtom("N")
+					return N
+				case isIndexLoad(t, 0):
+					return linAtom("O")
 				case t.Op == "+" && len(t.Args) == 2:
 					return ev(t.Args[0]).add(ev(t.Args[1]), 1)
 				case t.Op == "-" && len(t.Args) == 2:
@@ -179,11 +216,11 @@ func cursorFactsOf(g *GC, nstores int) cursorFacts {
 			}
 			form := ev(a.Args[0]).add(ev(a.Args[1]), -1)
 			neg := linConst(0).add(form, -1)
-			last := linAtom("N").add(linAtom("S"), -1).add(linConst(1), 1) // N - S + 1 = 0
+			last := N.add(linAtom("S"), -1).add(linConst(1), 1) // N - S + 1 = 0
 			if form.String() == last.String() || neg.String() == last.String() {
 				f.newEqLast = true
 			}
-			if form.String() == linAtom("N").String() || neg.String() == linAtom("N").String() {
+			if form.String() == N.String() || neg.String() == N.String() {
 				f.newEq0, f.newGe0 = true, true
 			}
 		}
@@ -198,7 +235,7 @@ func cursorFactsOf(g *GC, nstores int) cursorFacts {
 				case isSize(t):
 					return linAtom("S")
 				case isIndexLoad(t, nstores):
-					return linAtom("N")
+					return N
 				case isIndexLoad(t, 0):
 					return linAtom("O")
 				case t.Op == "+" && len(t.Args) == 2:
@@ -212,14 +249,20 @@ func cursorFactsOf(g *GC, nstores int) cursorFacts {
 			if a.Op == "<" {
 				form = form.add(linConst(1), 1)
 			}
-			N, O, S, one := linAtom("N"), linAtom("O"), linAtom("S"), linConst(1)
+			O, S, one := linAtom("O"), linAtom("S"), linConst(1)
 			zero := linConst(0)
-			switch form.String() {
-			case N.add(S, -1).add(one, 1).String(): // N - S + 1 <= 0
+			// form <= 0 is known; a target T <= 0 follows when T = form + c with c <= 0
+			implies := func(target lin) bool {
+				d := target.add(form, -1)
+				return len(d.c) == 0 && d.k <= 0
+			}
+			if implies(N.add(S, -1).add(one, 1)) { // N - S + 1 <= 0
 				f.newLtSize = true
-			case zero.add(N, -1).String(): // -N <= 0
+			}
+			if implies(zero.add(N, -1)) { // -N <= 0
 				f.newGe0 = true
-			case N.add(one, 1).String(), S.add(N, -1).String(): // N + 1 <= 0, S - N <= 0
+			}
+			if implies(N.add(one, 1)) || implies(S.add(N, -1)) { // N + 1 <= 0, S - N <= 0
 				f.newOut = true
 			}
 			if nstores == 0 {
@@ -290,6 +333,33 @@ func ruleR14(c *Ctx) *RuleResult {
 				case name == "NextTo" || name == "PrevTo":
 					bad := checkToLoop(c, it, fn, name)
 					add("R14to", key, clTo, p.FuncPos(fn), bad, "canonical search loop over the own "+strings.TrimSuffix(name, "To")+"()")
+				case name == "First" || name == "Last":
+					// not a forwarder: the composition of the wrapper's own Begin;Next / End;Prev is the same thing (they forward
+					// to the inner Begin/Next, and the inner First is the inner Begin;Next by its own obligation)
+					pre, step := "Begin", "Next"
+					if name == "Last" {
+						pre, step = "End", "Prev"
+					}
+					gcw := c.GC(fn)
+					okc := len(gcw.GCs) == 1 && len(gcw.GCs[0].Effects) == 2
+					if okc {
+						g := gcw.GCs[0]
+						n1, a1, ok1 := effDo(g.Effects[0])
+						n2, a2, ok2 := effDo(g.Effects[1])
+						okc = ok1 && ok2 && n1 == pre && n2 == step && len(a1) == 1 && len(a2) == 1 && a1[0].String() == "p:0" && a2[0].String() == "p:0" &&
+							g.Exit.Op == "return" && len(g.Exit.Args) == 1 && g.Exit.Args[0].Op == "res" && g.Exit.Args[0].Args[0].String() == g.Effects[1].String() &&
+							strings.HasPrefix(g.Effects[0].Leaf, p.RelPkg(it.Obj().Pkg().Path())+".(*"+it.Obj().Name()+")")
+					}
+					if !okc {
+						if eq, _ := firstIsComposition(c, it, fn, ms[pre], ms[step], "", nil); eq {
+							okc = true
+						}
+					}
+					if okc {
+						add("R14wrap", key, clWrap, p.FuncPos(fn), nil, name+" ≡ "+pre+";"+step+" on the wrapper itself")
+					} else {
+						add("R14wrap", key, clWrap, p.FuncPos(fn), []string{name + "() is neither a pure forwarder to " + wrapF + "." + name + "() nor " + pre + "(); return " + step + "()"}, "")
+					}
 				default:
 					add("R14wrap", key, clWrap, p.FuncPos(fn), []string{name + "() is not a pure forwarder to " + wrapF + "." + name + "()"}, "")
 				}
@@ -359,9 +429,13 @@ func ruleR14(c *Ctx) *RuleResult {
 					f := cursorFactsOf(g, n)
 					// the step
 					var stepVal *Term
+					moved := 0 // stores that change the index (writing a local copy back unchanged is no move)
 					for _, ef := range g.Effects {
 						if storeToField(ef, "index") && ef.Args[0].Args[0].String() == "p:0" {
 							stepVal = ef.Args[1]
+							if !isIndexLoad(ef.Args[1], 0) {
+								moved++
+							}
 						}
 					}
 					if dir == "Next" {
@@ -371,7 +445,7 @@ func ruleR14(c *Ctx) *RuleResult {
 								bad = append(bad, "with index < n, Next does not store index+1 exactly once: "+trunc(g.String(), 300))
 							}
 						case f.oldGeSize && !f.oldLtSize:
-							if n != 0 {
+							if moved != 0 {
 								bad = append(bad, "with index >= n, Next still moves the index (no saturation at n): "+trunc(g.String(), 300))
 							}
 						default:
@@ -384,7 +458,7 @@ func ruleR14(c *Ctx) *RuleResult {
 								bad = append(bad, "with index >= 0, Prev does not store index-1 exactly once: "+trunc(g.String(), 300))
 							}
 						case f.oldLt0 && !f.oldGe0:
-							if n != 0 {
+							if moved != 0 {
 								bad = append(bad, "with index < 0, Prev still moves the index (no saturation at -1): "+trunc(g.String(), 300))
 							}
 						default:
